@@ -60,6 +60,15 @@ func TestVerif_C04(t *testing.T) {
 				return e.backup("", []string{src}, BackupOptions{Host: mHost, Tags: data.TagLists{data.TagList{mTag}}})
 			},
 			func() error {
+				// many encrypted objects written by one process: a few hundred small distinct files
+				many := filepath.Join(src, "many-"+mName)
+				_ = os.MkdirAll(many, 0o755)
+				for i := 0; i < 330; i++ {
+					_ = os.WriteFile(filepath.Join(many, fmt.Sprintf("f%03d", i)), []byte(fmt.Sprintf("%s small file %d of scenario %d", mContent, i, si)), 0o644)
+				}
+				return e.backup("", []string{src}, BackupOptions{Host: mHost})
+			},
+			func() error {
 				_ = os.WriteFile(filepath.Join(src, "second-"+mName), []byte(mContent+mContent), 0o644)
 				return e.backup("", []string{src}, BackupOptions{Host: mHost})
 			},
